@@ -63,7 +63,7 @@ func (c03) Info() core.Info {
 			"bytes of a PCR/OPCR/splice countdown that became present but was never set are unconstrained until set",
 			"initial packets are ISO-valid: AFC=11 with L<=182 or AFC=10 with L=183",
 		},
-		RequiredProbes: []string{"af_full_refusal", "exact_fit", "toggle_off_nonempty_private", "toggle_off_nonempty_extension", "toggle_repeat_same_value", "shrink_private_before_extension", "copy_af_too_large", "copy_af_fits", "L_eq_183", "L_le_7", "value_for_absent_field", "grow_private", "all_fields_present"},
+		RequiredProbes: []string{"af_full_refusal", "exact_fit", "toggle_off_nonempty_private", "toggle_off_nonempty_extension", "toggle_repeat_same_value", "shrink_private_before_extension", "copy_af_too_large", "copy_af_fits", "L_eq_183", "L_le_7", "value_for_absent_field", "grow_private", "all_fields_present", "pcr_at_33_bit_limit"},
 	}
 }
 
@@ -206,7 +206,9 @@ func (c03) Gen(r *core.Rand, tier string) interface{} {
 		case 1, 2, 3, 4, 5:
 			op = C03Op{Op: r.PickS("has_pcr", "has_opcr", "has_splice", "has_priv", "has_priv", "has_ext", "has_ext"), V: r.Chance(3, 5)}
 		case 6:
-			op = C03Op{Op: r.PickS("pcr", "opcr"), U: r.U64() % (uint64(1) << 33 * 300)}
+			max := uint64(1)<<33*300 - 1 // base 2^33-1, extension 299: the largest value that fits in 33+9 bits
+			vals := []uint64{0, 1, 299, 300, max, max - 1, max - 298, max - 299, max - 300, (uint64(1)<<33 - 1) * 300, uint64(1) << 32 * 300, r.U64() % (max + 1), r.U64() % (max + 1), r.U64() % (max + 1)}
+			op = C03Op{Op: r.PickS("pcr", "opcr"), U: vals[r.Intn(len(vals))]}
 		case 7:
 			op = C03Op{Op: "splice", U: uint64(r.Intn(256))}
 		case 8, 9, 10, 11, 12:
@@ -486,6 +488,9 @@ func (c03) Exec(script interface{}, c *core.Ctx) {
 			case "has_ext":
 				cerr = af.SetHasAdaptationFieldExtension(op.V)
 			case "pcr":
+				if op.U >= (uint64(1)<<33-1)*300 {
+					c.Probe("pcr_at_33_bit_limit")
+				}
 				cerr = af.SetPCR(op.U)
 			case "opcr":
 				cerr = af.SetOPCR(op.U)
